@@ -340,6 +340,8 @@ package logqlengine
 //@ func (*LineFormat).Process
 //@   requires set.labels != nil
 //@   capture ex = call(lf.tmpl.Execute, 0)
+//@   capture rs = call(lf.buf.Reset, 0)
+//@   ensures[buffer-reset-for-every-line] rs_called && rs_recv == lf.buf
 //@   ensures[never-drops] keep
 //@   ensures[binds-line-and-timestamp] lf.ts == ts && lf.line == line
 //@   ensures[failing-template-keeps-line-and-flags] ex_called && (ex_r0 != nil ==> ret0 == line && has(set.labels, logql.ErrorLabel))
